@@ -26,8 +26,9 @@ impl AsmSource {
         let stmt = self.get_source_statement(address)?;
         let report = miette::miette!(
             severity = miette::Severity::Advice,
-            labels = vec![miette::LabeledSpan::at(
+            labels = vec![crate::error::label_at(
                 stmt.span,
+                self.src,
                 format!("Next instruction, at address 0x{:04x}", address),
             )],
             "",
